@@ -11,35 +11,62 @@ MODULE = "C05"
 IMPORTS = "Bytes RustInt Range CacheControl Cache CacheProofs Fixture RustStd Vary VaryProofs VaryWire VaryWireProofs"
 PROFILES = ("dev",)
 
-RULE = ("histories through the real kvarn::handle_cache in process (harness/src/c05.rs on top of c00pipe.rs): hosts with 1-3 pages, each page "
-        "with a vary rule set of 0-3 rules (header name incl. mixed-case and non-token names, transformation from the many-to-few menu "
+RULE = ("histories through the real kvarn::handle_cache in process (component vary.run, harness/src/c05.rs on top of c00pipe.rs) and over one loopback "
+        "HTTP/1.1 connection served by kvarn::handle_connection (component vary.wire, harness/src/c05wire.rs: what SendKind::send wrote). Hosts with 1-4 "
+        "pages, each with a vary rule set of 0-3 rules (header name incl. mixed-case and non-token names, transformation from the many-to-few menu "
         "{lower-case, first-byte class lo/hi/none, length mod 3, constant} implemented in Rust and in Gallina, default incl. defaults equal to a class), "
-        "served by a counting handler that echoes its own transformed tuple; requests GET/HEAD(/POST) whose rule headers are absent, present "
-        "(same class / different class), empty, repeated, or not text (obs-text bytes); every history = first pass in some arrival order, dump of the "
-        "stored variant vector, second pass, dump; thorough: all arrival orders of every chosen request multiset of size <= 5, random orders beyond; "
-        "quick: all orders of size <= 4 for a few sets + random. Compared per request: status, vary header, last-modified presence, decoded body, identity "
-        "body, handler invocation log; per dump: the stored header lists in vector order (model side: the Coq vector model). "
-        "Spec oracle (component vary.spec = finite map (page, transformed tuple) -> response): body is the rendering of the request's own transformed tuple, "
-        "exactly one handler invocation per distinct tuple per page between clears, vary header equation, and every dumped vector holds exactly the "
-        "tuples seen, each once (its ascending order for Rust's Ord on [Header] is compared with the model's vector by the correspondence). distinct_nontrivial = histories that stored >= 3 variants on one page")
+        "registered under the exact path or under a pattern '<prefix>*' (longer pattern / exact path win), server cache preference Full or QueryMatters, "
+        "bodies below and above the 50-byte floor of the compressor, with and without the default extensions (Prime uri_redirect in front); served by a "
+        "counting handler that echoes its own transformed tuple (and the query on QueryMatters pages); requests GET/HEAD/POST whose rule headers are "
+        "absent, present (same class / different class), empty, repeated with values of different classes, or not text (obs-text bytes), with "
+        "accept-encoding, If-Modified-Since (start + 100 s = fresh for every entry, start - 100 s = for none), and on the wire Range (satisfiable, starting "
+        "after the end, start > end, unparsable); every history = first pass in some arrival order, dump of the stored variant vector, second pass, "
+        "dump; thorough: all arrival orders of every chosen request multiset of size <= 5, random orders beyond; quick: all orders of size <= 4 for a few "
+        "sets, all orders of 2-4 tuples whose components run together to the same text (('ab','c') / ('a','bc') / ('abc','') ...) + random. Compared per "
+        "request with the extracted model: status, vary header, last-modified presence, decoded body, identity body, handler invocation log; per dump: "
+        "the stored header lists in vector order; on the wire: status, every vary line, decoded body, handler log. Spec oracles: (1) component vary.spec = "
+        "finite map (page, transformed tuple) -> response (pages stored under the path key, no conditional requests); (2) an independent reading of the "
+        "property in Python on the implementation's output alone (every sequential history, in process and on the wire, incl. QueryMatters pages and "
+        "conditional requests): a store cache key -> set of tuples; a request is answered without a handler invocation exactly when its own tuple (and "
+        "query) was computed since the last clear, with exactly one otherwise; every 200/206 body is the rendering of the request's own transformed tuple; "
+        "every response with a body carries exactly one vary line 'accept-encoding, range' + the rule headers of the page, 416/404/400/406 included; "
+        "no dumped vector holds two variants with equal lists. distinct_nontrivial = histories that stored >= 3 variants on one page / wire histories "
+        "with >= 2 different statuses")
 ASSUMPTIONS = [
     "sequential histories in the theorems about serveV (one request at a time); the one suspension point of handle_cache (the await on the handler in "
     "the miss arm / in handle_vary_missing) is modelled as two phases, and interleavings at that point are exercised by the park/release operations "
     "of the harness and covered by the theorems stale_position_* only",
     "moka is a finite map with read-your-writes; its capacity (1024 entries) is never reached",
     "vary_refines_map / computed_once_per_tuple: every GET/HEAD response of the handler is cacheable under the path key and never expires, requests pass "
-    "sanitize and carry no If-Modified-Since (theorem hypotheses; fixture pages are ServerCachePreference::Full without max-age)",
-    "rule sets are looked up by exact path in the fixture (extensions::RuleSet::get with patterns is C14's subject); internal '/./' override URIs of Prime "
-    "extensions are not modelled",
+    "sanitize and carry no If-Modified-Since (theorem hypotheses; for QueryMatters pages and conditional requests the same is checked by the Python "
+    "history oracle and by the correspondence, and follows from vector_refines_assoc_list + C03's theorems)",
+    "rule sets are looked up through the model of extensions::RuleSet (Model/RuleSet.v, C14's subject; here exact paths and patterns of different "
+    "lengths); internal '/./' override URIs of Prime extensions are not modelled (the cache key would be the override path, the rules those of the client path)",
     "HeaderMap::get(&str) for rule names longer than 64 bytes is modelled by the same normalisation as for shorter ones (not generated)",
-    "content negotiation is abstract (C06): bodies are compared after decoding content-encoding with standard decoders; streaming responses are not modelled "
-    "(apply_header's no_range branch is in the model but unreachable from serveV)",
+    "content negotiation is abstract (C06): bodies are compared after decoding content-encoding with standard decoders (bodies above the 50-byte floor "
+    "with accept-encoding are generated); streaming responses (a `future` in the reply) are not modelled: handle_cache skips apply_header for a stream "
+    "without announced length, send does not apply ranges to streams (apply_header's no_range branch is in the model but unreachable from serveV)",
+    "on the wire: wire_vary_advertised assumes that the operator's Package extensions leave `vary` alone (hypothesis; the ones of Extensions::new() do, "
+    "observed); what send does besides (content-length, connection, version) is C08's subject and not in Model/VaryWire.v; the answers handle_connection "
+    "gives before a host's page is consulted (429 of the limiter, 409 for an unknown host) carry no vary and are outside the property (they do not "
+    "depend on the path: 'when a path has vary rules'); HTTP/2 and HTTP/3 write the same head (not run)",
+    "kvarn's HTTP/1 parser keeps the last of repeated header lines (HeaderMap::insert in utils/src/parse.rs: C07's subject), so handle_cache never sees a "
+    "repeated rule header on an HTTP/1 connection: repeated headers are exercised in process only",
+    "If-Modified-Since: the 304 is decided on the entry's date before the variants are looked at (not_modified_before_variant_lookup; a request whose own "
+    "tuple was never computed gets it: not_modified_only_for_stored_variant_refuted, replayed on the code). That this is harmless for a client that "
+    "sends back the last-modified it was given for the same URL and the same transformed tuple is proved per entry (not_modified_same_entry_sound: the "
+    "entry holds for that tuple the variant the client was served; entry_changes_are_dated: a value never changes under its date), not as one theorem "
+    "over histories with a clock of one-second resolution (C04's arithmetic not_modified_arithmetic would be the other half)",
 ]
 TRUSTED = ["modelled: src/vary.rs (Settings::add_rule's assertion, VariedResponse::{new,push_response,get,get_headers_for_request,get_by_request,first}, "
-           "get_header, apply_header, derived Ord of Header and Ord of slices), src/lib.rs handle_cache + handle_cache_helpers::{maybe_cache, "
-           "handle_vary_missing} (as in Model/Cache.v, with the variant vector instead of an association list), rustc 1.95 slice::binary_search_by "
-           "(Model/RustStd.v), http 1.5.0 HeaderMap::get(&str) name normalisation (HEADER_CHARS), HeaderValue::to_str; "
-           "handlers/transformations are the fixture menu (harness/src/c00pipe.rs = Model/Fixture.v); the dump reads VariedResponse's derived Debug output"]
+           "get_header, apply_header, apply_header_from_settings, derived Ord of Header and Ord of slices), src/lib.rs handle_cache + "
+           "handle_cache_helpers::{maybe_cache, handle_vary_missing} (as in Model/Cache.v, with the variant vector instead of an association list), "
+           "SendKind::send as far as status, body and vary go (Model/VaryWire.v: apply_to_response = Model/Range.v, the 416 replacement, resolve_package "
+           "abstract, HEAD), extensions::RuleSet::{add_mut,get} (Model/RuleSet.v), rustc 1.95 slice::binary_search_by (Model/RustStd.v), http 1.5.0 "
+           "HeaderMap::get(&str) name normalisation (HEADER_CHARS), HeaderValue::to_str; handlers/transformations are the fixture menu "
+           "(harness/src/c00pipe.rs = Model/Fixture.v, kind 5 in harness/src/c05.rs = Model/Vary.v compute_c05); the dump reads the field names "
+           "`name`/`transformed` and string literals out of VariedResponse's Debug output (nothing else of it; an unreadable dump is skipped and reported, "
+           "never a verdict); the wire client of c05wire.rs (own framing by content-length)"]
 LEVEL_TEXT = ("Coq theorems, for all rule sets (any number of rules, names, transformations, defaults), all header values and all histories "
               "(requests, page clears, clear-all, waits/expiry): vary_served_for_equal_tuple — by an inductive invariant on the cache (every variant "
               "vector strictly sorted for Rust's Ord on [Header], built with the page's rules, every stored response computed for a request of that page "
@@ -48,14 +75,25 @@ LEVEL_TEXT = ("Coq theorems, for all rule sets (any number of rules, names, tran
               "lookup_refines_map / insert_refines_map / lookup_never_wrong_variant (rustc 1.95 binary_search_by on the vector = finite map; exact match "
               "even on an unsorted vector); vary_refines_map — the server's observations and handler invocations equal those of a finite-map server "
               "(page, transformed list) -> response for every history when GET/HEAD responses are cacheable under the path key without expiry; "
-              "computed_once_per_tuple; default_applied; vary_header_eq (exact equation, rule order); stale_position_safe for the repaired "
-              "handle_vary_missing (second half of a request against any invariant-satisfying cache) with stale_position_v0_refuted for the code before "
-              "the repair (panic / unsorted vector, reproduced on the real code); vector_refines_assoc_list + vary_cache_transparent connect the vector "
-              "model to Model/Cache.v and C03's transparency. Tied to the repo by the differential run of the real kvarn::handle_cache against the "
-              "extracted model (incl. the order of the stored vector read from VariedResponse's Debug output) and the finite-map spec oracle.")
-LEVEL_NOTE = ("Trusted: Coq kernel; extraction (sample re-checked in-kernel); hand transcription of vary.rs / handle_cache into Model/Vary.v validated by the "
-              "differential run incl. the order of the stored vector; moka as a finite map. No axioms.")
-TECHNIQUE = "Coq proof (inductive invariant over all histories + refinement of the sorted vector to a finite map) + differential correspondence on kvarn::handle_cache"
+              "computed_once_per_tuple; default_applied; vary_header_eq (exact equation, rule order) for the reply of handle_cache and "
+              "wire_vary_advertised for what SendKind::send passes to the connection: for every history, every sanitize verdict and every range, each "
+              "response with a non-empty body — the reply, a range cut out of it, or the 416 page that replaces it — carries vary: accept-encoding, "
+              "range, <rule headers>, given Package extensions that leave vary alone; send_keeps_vary (send without replacement never changes vary); "
+              "wire_416_without_vary_v0_refuted: before the repair of send (fix f31d94d) the 416 page had no vary (fixture history reproduced on the "
+              "code + for every page); stale_position_safe for the repaired handle_vary_missing (second half of a request against any "
+              "invariant-satisfying cache) with stale_position_v0_refuted for the code before that repair; If-Modified-Since: "
+              "not_modified_before_variant_lookup (the 304 depends on the entry's date only), not_modified_only_for_stored_variant_refuted (a tuple never "
+              "computed gets it; on the code too), not_modified_same_entry_sound + entry_changes_are_dated (a client whose copy stems from the entry "
+              "the 304 is decided on holds the variant that entry has for its tuple; no value changes under its date); vector_refines_assoc_list + "
+              "vary_cache_transparent connect the vector model to Model/Cache.v and C03's transparency. Tied to the repo by the differential run of the "
+              "real kvarn::handle_cache and of kvarn::handle_connection (loopback) against the extracted models (incl. the order of the stored vector), "
+              "the finite-map spec oracle and an independent Python reading of the property on the implementation's output. Not proved: the history-level "
+              "corollary of the two If-Modified-Since lemmas under a one-second clock; streaming replies.")
+LEVEL_NOTE = ("Trusted: Coq kernel; extraction (sample re-checked in-kernel); hand transcription of vary.rs / handle_cache / the vary-relevant part of send "
+              "into Model/Vary.v and Model/VaryWire.v validated by the differential runs incl. the order of the stored vector; moka as a finite map; the "
+              "harness's own HTTP/1 client. No axioms.")
+TECHNIQUE = ("Coq proof (inductive invariant over all histories + refinement of the sorted vector to a finite map + send as a function of the reply) + "
+             "differential correspondence on kvarn::handle_cache and on kvarn::handle_connection over loopback")
 
 REPORT = [b"vary", b"?last-modified"]
 
